@@ -170,6 +170,9 @@ func (pf *RangeProofAlice) Verify(ec elliptic.Curve, pk *paillier.PublicKey, NTi
 		modNSquared := common.ModInt(pk.NSquare())
 
 		cExpMinusE := modNSquared.Exp(c, minusE)
+		if cExpMinusE == nil { // c is not invertible modulo N^2
+			return false
+		}
 		sExpN := modNSquared.Exp(pf.S, pk.N)
 		gammaExpS1 := modNSquared.Exp(pk.Gamma(), pf.S1)
 		// u != (4)
